@@ -72,11 +72,20 @@ type Event struct {
 // Phase: Mode "sched" executes Events one by one, each awaited; a missing release (and, after it, the missing expire of every
 // "near" caller: a deadline that is reported also passes) is appended. Mode "storm" opens the gate,
 // starts all callers at once without any harness ordering (race detector + order-independent part of the oracle).
+//
+// Hold (sched phases): "hold the finished download". From the release of this phase on, a download goroutine that has
+// handed its result to its waiters (rp.VerifAfterInflightDone, build tag verif) stays parked at that point instead of
+// running to its end: the waiters have returned, the goroutine has not finished. What follows - the rest of this phase and
+// the events of the next phase, whose endpoint script may serve a rotated key set - is applied while it is parked, until an
+// "unhold" event: in the next sched phase at a generated position (before the first arrival = the behaviour without Hold,
+// after k arrivals, after that phase's release); a missing one is appended after that phase's release; before a storm phase
+// and at the end of the case the held goroutines are released in any case.
 type Phase struct {
 	Mode    string   `json:"mode"`
 	Fetch   Doc      `json:"fetch"`
 	Callers []Caller `json:"callers"`
 	Events  []Event  `json:"events,omitempty"`
+	Hold    bool     `json:"hold,omitempty"`
 }
 
 type Case struct {
@@ -352,6 +361,21 @@ func genCase(t *rapid.T) Case {
 		}
 		if ph.Mode == "sched" {
 			ph.Events = genEvents(t, ph.Callers)
+			// the finished download of the previous phase is still held: when does it go on?
+			if p > 0 && c.Phases[p-1].Hold {
+				pos := 0
+				switch rapid.IntRange(0, 5).Draw(t, "unhold?") {
+				case 0: // before the first arrival (nobody sees the held download)
+				case 1, 2: // after this phase's release and everything else
+					pos = len(ph.Events)
+				default:
+					pos = rapid.IntRange(0, len(ph.Events)).Draw(t, "unholdpos")
+				}
+				evs := append([]Event{}, ph.Events[:pos]...)
+				evs = append(evs, Event{Op: "unhold"})
+				ph.Events = append(evs, ph.Events[pos:]...)
+			}
+			ph.Hold = rapid.IntRange(0, 2).Draw(t, "hold") == 0
 		}
 		c.Phases = append(c.Phases, ph)
 		switch ph.Fetch.Kind {
@@ -442,8 +466,9 @@ var prop = vkit.Prop[Case]{
 		"cancellable without deadline / deadline an hour away / deadline 5-20 ms after the arrival) + endpoint script " +
 		"(serve version v with optional unusable entries, zero keys, 5xx/404, error status with a valid body, bad JSON, null, wrong JSON type, HTML, transport error, broken body) + " +
 		"event order over {arrive i, cancel i, deadline of i passes (before the call / while waiting / after the return), release}, executed one awaited event at a time; " +
+		"a third of the sched phases hold the finished download (goroutine parked right after it handed its result to the waiters) into the next phase, which releases it before its first arrival / after k arrivals / after its release; " +
 		"storm phases start all callers unordered under the race detector; " +
-		"non-trivial = some phase has >=2 callers parked on one download and a rotation, failure, cancellation or deadline event; " +
+		"non-trivial = some phase has >=2 callers parked on one download and a rotation, failure, cancellation or deadline event, or a caller whose token needs a refresh arrives while a finished download is held; " +
 		"distinct = (SkipRemoteCheck, per phase: mode, script kind, event pattern with owner/waiter roles, per caller token class and verdict)",
 	Gen:   genCase,
 	Run:   run,
